@@ -240,8 +240,8 @@ class Prop:
                             'detail': {'site': site, 'process': who, 'current': cur, 'scenario': scenario}})
                 unfinished = [n for n, p in env.procs.items() if not p.has_terminated()]
                 if unfinished and not res.capped:
-                    res.violations.append({'clause': 'harness:not-all-terminated', 'features': {'scenario': scenario},
-                                           'detail': unfinished})
+                    # (whether everything terminates is the business of C04-C06; here the run just covers fewer sites)
+                    res.extra = dict(getattr(res, 'extra', None) or {}, unfinished_runs=1)
                 res.nontrivial = len({r[2] for r in env.records if r[0] == 'step'}) >= 2
                 res.outcome = tuple(sorted({(r[0], r[1], r[2], r[3]) for r in env.records if r[0] != 'harness'}))
                 res.states = {(r[0], r[1], r[2]) for r in env.records}
